@@ -86,7 +86,10 @@ def canonicalize_metadata(
     for value in values:
         if isinstance(value, dict | list | tuple):
             value = canonicalize_metadata(value)
-        elif isinstance(value, int | float | str | np.ndarray) or value is None:
+        elif isinstance(value, np.ndarray):
+            # str() of an array abbreviates large arrays and rounds the entries
+            value = (str(value.shape), *canonicalize_metadata(value.ravel().tolist()))
+        elif isinstance(value, int | float | str) or value is None:
             value = str(value)
         elif hasattr(value, "ufl_signature"):
             value = value.ufl_signature
